@@ -18,13 +18,80 @@ NOTE_COMMON = ("Bounded: every input up to N tokens and every value of the symbo
                "never as success.")
 
 # property -> (level text, extra note)
+def _t(what, oracle):
+    return (what, oracle)
+
+
 CLAIMED = {
-    "C01": ("For each catalogue grammar shape (primitives, then/ignore_then/then_ignore/group, or/choice in tuple, Vec "
-            "and array form, or_not/not/and_is/rewind, delimited_by/padded_by, map/to/ignored/filter/try_map, boxed "
-            "variants) the solver shows chumsky(g, x) == PEG-reference(g, x) — acceptance, output and the extent "
-            "consumed by every sub-parser — for ALL byte strings x up to N=3 (quick) / 4 (thorough) and ALL values of "
-            "the symbolic tokens of g.", "oracle = harness/src/refsem.rs (PEG interpreter executed symbolically in the "
-            "same query)"),
+    "C01": _t("For each catalogue grammar shape (primitives, then/ignore_then/then_ignore/group, or/choice in tuple, Vec and array "
+              "form, or_not/not/and_is/rewind, delimited_by/padded_by, map/to/ignored/filter/try_map, boxed variants) the solver "
+              "shows chumsky(g, x) == PEG-reference(g, x) — acceptance, output and the extent consumed by every sub-parser — for "
+              "ALL byte strings x up to N=3 (quick) / 4 (thorough) and ALL values of the symbolic tokens of g.",
+              "oracle = harness/src/refsem.rs (PEG interpreter executed symbolically in the same query)"),
+    "C02": _t("repeated()/separated_by() with SYMBOLIC at_least/at_most/exactly (0..=4) and symbolic allow_leading/allow_trailing, "
+              "collected into Vec / counted / enumerated / collect_exactly / folded / used as unit parsers: items, order, count "
+              "bounds, greediness and the position left behind equal the reference semantics for all inputs up to N=3..4 (5 thorough).",
+              "oracle = refsem Rep/Sep with the stated permissive corners (leading separator with zero items; trailing separator at at_most)"),
+    "C03": _t("On parse() and check() of grammars from the C01/C02/C08 classes and lazy(): error-free acceptance iff the reference "
+              "semantics matches the WHOLE input without non-fatal errors; has_output or has_errors; into_result is Ok iff error-free; "
+              "check agrees with parse — for all inputs up to N=3 (4 thorough).", "oracle = refsem on the whole input"),
+    "C04": _t("Differential on the real code: each output-eliding combinator against its value-building formulation (11 pairs, elided "
+              "parser containing a filter / try_map / validate / recover_with / or_not / emitting choice) and check() against parse(): same "
+              "acceptance, output, remainder and number of reported errors (every emitter reports a distinct number of copies, so the "
+              "number identifies the set) for all inputs up to N=3.", "no oracle: two runs of the real code"),
+    "C05": _t("One shape per backtracking site (or, choice tuple/Vec/array, repeated collect / fast loop / counted, separated_by, "
+              "or_not, not, and_is, rewind, foldl/foldr, recover_with) with validate emitters inside the abandoned and inside the kept "
+              "part: when there is an output, the SET of reported emissions equals the emissions of the surviving path of the reference "
+              "semantics, for all inputs up to N=3..4.",
+              "oracle = refsem emission bookkeeping; emitter k reports 2^(k-1) copies and the length of ParseResult::errors() is compared"),
+    "C06": _t("With an error type whose merge is an exact set union (BitErr): the single error of a rejected parse lies at the furthest "
+              "failure position of the reference semantics (not earlier, not later), its expected set equals the union of what failed there, "
+              "a user error raised there is preserved, span inside the input, found = token at the span start — for all inputs up to N=3..4.",
+              "oracle = refsem furthest-failure bookkeeping"),
+    "C07": _t("Well-formedness of every captured span/slice: start<=end<=len, character boundaries on &str (1-4 byte characters), "
+              "children nested and ordered in the parent, empty matches get empty spans between their neighbours, to_slice is the caller's "
+              "memory (pointer identity) and equals input[span], token-carried gapped spans (Input::map) span first.start..last.end; span "
+              "arguments of try_map / validate / foldl_with / foldr_with — for all inputs within the bounds.", "direct invariants on the real run"),
+    "C08": _t("recover_with(via_parser | skip_until | skip_then_retry_until) at top level, inside or, inside repeated, under or_not and "
+              "nested: transparent where p succeeds; strategy output plus exactly one extra error otherwise; both fail => failure, nothing "
+              "consumed; skip_until minimal; skip_then_retry_until accepts only error-free retries — equal to the reference semantics for all "
+              "inputs up to N=3..4.", "oracle = refsem RecVia/RecSkipUntil/RecSkipRetry"),
+    "C09": _t("Whole-parser: concrete operator tables (prefix/infix/postfix) against the textbook binding-power evaluator for all byte strings up "
+              "to N=3..4 (5 thorough). One operator step of Infix/Prefix/Postfix (the real do_parse_* code) with SYMBOLIC power (<2^15), "
+              "associativity and min_power and the recursion stubbed: attempted iff left_power >= min_power, operand requested with right_power, "
+              "left/right power ordering, unusable operator left unconsumed.", "oracle = 60-line textbook evaluator; recursion stub"),
+    "C10": _t("One generic grammar instantiated at &[u8], &[u8;3], Stream (pull-counting iterator underneath), BoxedStream, IterInput, "
+              "Input::map, map_span and &str (ASCII): same acceptance, output with spans, error count and error position as the &[u8] run; "
+              "Stream pulls each item at most once — for all inputs up to N=3.", "no oracle: differential between input kinds"),
+    "C11": _t("Plain vs memoized grammar (shared boxed memoized parser hit twice at one position, memoized at several positions, under "
+              "map_err / recover_with): same acceptance, output, error count and error span for all inputs up to N=3; the memoized left-recursive "
+              "grammar returns for every input (recursion unwinding assertion).", "differential; hashbrown replaced by a fixed-capacity association list"),
+    "C12": _t("recursive() and declare/define grammars against their hand unrolling for all inputs up to N=3 and all symbolic tokens; "
+              "clone / boxed clone survive the drop of the original.", "oracle = direct recursive recogniser"),
+    "C13": _t("A history of two parses with independent symbolic inputs on one parser value, through clone, &, Box, Rc, Arc, boxed(), Either; "
+              "also a recursive + memoized parser: the later result equals a fresh parser's.", "differential against a freshly built parser"),
+    "C14": _t("int(r), digits, ascii::ident, keyword, whitespace, inline_whitespace, padded on ARBITRARY bytes up to N=3..4 and newline on "
+              "&str over the terminator alphabet: accept/reject, matched length and returned slice (pointer identity) equal hand recognisers; "
+              "&str and &[u8] agree on ASCII.", "oracle = recognisers written with plain loops"),
+    "C15": _t("Length-prefixed, static-cap, delimiter-echo (by value and through &P, parse and check), nearest-provider (nested, per iteration, "
+              "after an abandoned alternative), try_configure and map_ctx grammars against direct oracles for all inputs up to N=3..4.", "direct oracles"),
+    "C16": _t("nested_in over token trees (<=2 outer tokens, groups of <=2 leaves): inner parser sees exactly the inner tokens and must consume them, "
+              "outer advances by one token, inner emissions surface, failed / abandoned nested parses are backtracked over — against a direct oracle.",
+              "direct oracle over the symbolic tree"),
+    "C17": _t("Decorated vs undecorated grammar (labelled, as_context, map_err, map_err_with_state) with BitErr: same acceptance, output, error count, "
+              "span and found; label replaces expectations only at the first token, inner expectations kept further in, as_context adds (label, span); "
+              "map_err applied to exactly its own parser's failures and transparent on success — for all inputs up to N=3.", "differential + hand oracle per shape"),
+    "C18": _t("A counting+hashing snapshot Inspector observed in map_with/select/foldl_with closures equals the fold over exactly the tokens before the "
+              "current position after or, or_not, repeated, separated_by, rewind, not, and_is, recover_with, padded; with_state starts fresh per invocation "
+              "and leaves the outer state untouched — for all inputs up to N=3..4.", "direct invariant"),
+    "C19": _t("With drop-counting outputs: live values == values in the returned output while the result is alive, zero after dropping it, no double "
+              "drop, for parse and check, through group array/tuple, collect_exactly (array, Box), Vec, folds, abandoned alternatives, recovery and "
+              "lookahead; clone-counting tokens: only the caller's buffer stays live — plus Kani's pointer/free checks — for all inputs up to N=3..4.",
+              "direct invariant + CBMC memory-safety checks"),
+    "C20": _t("Kani's built-in checks on the real code (panic, unwrap on None, overflow, bounds, pointer validity) and the unwinding assertions (no loop "
+              "or recursion can exceed the bound for any input of that size) on the wrapper x failing-inner matrix with a zero-sized and a span error "
+              "type, on &str from arbitrary Unicode scalar values, and (thorough) on every other property's harness; failure always carries an error.",
+              "no oracle: CBMC property checks + result contract"),
 }
 
 NOT_APPLICABLE = {
